@@ -131,4 +131,9 @@ theorem shape_ServeHTTP_ok : Oidc.Shapes.Shape_ServeHTTP := by unfold Oidc.Shape
 theorem shape_isUserAuthenticated_ok : Oidc.Shapes.Shape_isUserAuthenticated := by unfold Oidc.Shapes.Shape_isUserAuthenticated; rfl
 theorem shape_processAuthorizedRequest_ok : Oidc.Shapes.Shape_processAuthorizedRequest := by unfold Oidc.Shapes.Shape_processAuthorizedRequest; rfl
 
+/-! obligations against the regenerated program text: the functions these theorems rest on read, statement for statement, as
+    they did when the model was written after them (`Oidc/Shapes.lean`) -/
+theorem text_TraefikOidc_determineExcludedURL_ok : Oidc.Shapes.Text_TraefikOidc_determineExcludedURL := by unfold Oidc.Shapes.Text_TraefikOidc_determineExcludedURL; rfl
+theorem text_TraefikOidc_VerifyJWTSignatureAndClaims_ok : Oidc.Shapes.Text_TraefikOidc_VerifyJWTSignatureAndClaims := by unfold Oidc.Shapes.Text_TraefikOidc_VerifyJWTSignatureAndClaims; rfl
+
 end Oidc.Props.C01
